@@ -19,13 +19,15 @@ from typing import Any, Dict, List
 from harness import core
 
 JVM = ("-Xmx3g", "-XX:ParallelGCThreads=4")
-PRIORITY = ["Inv_OneBased", "Inv_Line", "Inv_NoShift", "Inv_Column", "Inv_TableRefines"]
+PRIORITY = ["Inv_LocationComputed", "Inv_NoLocationWithoutConstruct", "Inv_OneBased", "Inv_Line", "Inv_NoShift", "Inv_Column", "Inv_TableRefines"]
 PREFIXES = ["", "# shifted by a comment é\n\n", '"""Docstring first.\n\nTwo more lines.\n"""\n\n\n']
 
 
 def fingerprint(o: Dict[str, Any]) -> Dict[str, Any]:
     """structural key of a violating record: by how much is the column off the nearest allowed column of that
     line, is it on a later line, and is it the position right after a newline that starts the text?"""
+    if o["kind"] in ("nonode", "raised"):
+        return {"delta": None, "later_line": False, "after_leading_newline": False}
     if o["kind"] == "table":
         txt, pos = o["txt"], o["positions"]
         line, col = 1, 0
@@ -59,7 +61,7 @@ def main() -> int:
     ck = core.Check("C04", "model_checking")
     rnd = random.Random(ck.seed)
 
-    if not replay:
+    def design_level() -> None:
         # ---- M ----------------------------------------------------------------------------------
         ck.model_check("LocAlgo", "MC_LocAlgo_fixed%s.cfg" % ("" if ck.quick else "_thorough"), "the table construction with column reset to 0 refines the declarative Line/Col on every text over {x, newline}", workers=4, jvm=JVM, timeout=900)
         res = ck.tlc("LocAlgo", "MC_LocAlgo_pinned.cfg", what="M (negative control): the table construction with column reset to 1 must be rejected", workers=1, jvm=JVM, timeout=600)
@@ -70,6 +72,18 @@ def main() -> int:
         if not any(v["invariant"] == "RefinesEverywhere" for v in res.violations):
             raise core.MachineryFailure("the design 'column = 0 after a newline' was not rejected at newline offsets")
         ck.notes.append("design level: 'column = 0 after a newline' refines the map at token starts but not at newline offsets (counterexample text %s): the repair appends the position before resetting" % " ".join((res.var_of(res.violations[0], "txt") or "").split()))
+
+        res = ck.tlc("LocAlgo", "MC_LocAlgo_splitlines.cfg", what="M (negative control): line starts from str.splitlines are wrong after a form feed / NEL / U+2028", workers=1, jvm=JVM, timeout=600)
+        if not any(v["invariant"] == "Refines" for v in res.violations):
+            raise core.MachineryFailure("the design 'line starts from str.splitlines' was not rejected")
+
+
+    m_pool = m_future = None
+    if not replay:
+        # the design-level runs proceed in the background while G / R / V go on; joined before the verdict
+        import concurrent.futures
+        m_pool = concurrent.futures.ThreadPoolExecutor(max_workers=1)
+        m_future = m_pool.submit(design_level)
 
     # ---- G ----------------------------------------------------------------------------------
     job: Dict[str, Any] = {"planted": [], "fixtures": [], "texts": []}
@@ -98,7 +112,8 @@ def main() -> int:
         for p in sorted(d.glob("smoke/test_main/unexpected/**/meta_model.py")):
             job["fixtures"].append({"path": str(p), "prefix": "", "smoke": True})
             job["fixtures"].append({"path": str(p), "prefix": PREFIXES[1], "smoke": True})
-        job["table_max"] = 6 if ck.quick else 9
+        job["table_max"] = 5 if ck.quick else 7
+        job["table_alphabet"] = "x\n\x0c "
 
     # ---- R ----------------------------------------------------------------------------------
     job_p, obs_p = ck.work / "job.json", ck.work / "obs.json"
@@ -112,7 +127,7 @@ def main() -> int:
 
     # ---- V ----------------------------------------------------------------------------------
     slim = [{k: o[k] for k in ("kind", "L", "C", "nl", "cands", "txt", "positions")} for o in obs]
-    counters = {"later": 0, "first": 0, "table": 0}
+    counters = {"later": 0, "first": 0, "table": 0, "nonode": 0}
     chunk = 4000
     for off in range(0, len(slim), chunk):
         part = slim[off : off + chunk]
@@ -120,11 +135,12 @@ def main() -> int:
         core.write_json(pp, part)
         res = ck.tlc("LocTrace", what="V: reported positions against the declarative Line/Col", env={"VERIF_OBS": str(pp)}, cont=True, workers=1, jvm=JVM, timeout=900)
         for line in res.printed:
-            m = re.search(r"counters\", (\d+), (\d+), (\d+), (\d+)", line)
+            m = re.search(r"counters\", (\d+), (\d+), (\d+), (\d+), (\d+)", line)
             if m:
                 counters["later"] += int(m.group(2))
                 counters["first"] += int(m.group(3))
                 counters["table"] += int(m.group(4))
+                counters["nonode"] += int(m.group(5))
         per_rec: Dict[int, List[str]] = {}
         for v in res.violations:
             mi = re.search(r"(?:^|\n)(?:/\\ )?i = (\d+)", v["state"])
@@ -135,16 +151,28 @@ def main() -> int:
         for idx in sorted(per_rec):
             o = obs[idx]
             inv = next((p for p in PRIORITY if p in per_rec[idx]), per_rec[idx][0])
-            key = {"clause": inv, "kind": o["kind"]}
+            key = {"clause": inv, "kind": o["kind"], "lead_blank": bool(o.get("lead_blank")), "tokenless": bool(o.get("tokenless"))}
             key.update(fingerprint(o))
-            if o["kind"] == "table":
+            the_text = texts[o["tid"]] if 0 <= o.get("tid", -1) < len(texts) else (o["case"] if isinstance(o["case"], str) else None)
+            key["empty_text"] = the_text == ""
+            if o["kind"] == "raised" and o["tid"] < 0:
+                case = {"table_text": o["case"]}
+                detail = "LinenoColumner on the text %r raised %s" % (o["case"], o["msg"])
+            elif o["kind"] == "table":
                 case = {"table_text": o["case"]}
                 detail = "text %r: table %s" % (o["case"], o["positions"])
             else:
                 case = {"text": texts[o["tid"]] if 0 <= o["tid"] < len(texts) else None, "case": o["case"], "src": o["src"]}
+                if o["src"] == "tiny":
+                    case = {"table_text": o["case"]}
                 detail = "%s reported (%d, %d) for %s %r; candidates (offset, line-indent) %s" % (o["src"], o["L"], o["C"], o["node"] or "a construct", o["msg"][:80], [(k["off"], k["indent"]) for k in o["cands"][:6]])
             ck.violation(key, inv, case, {"L": o["L"], "C": o["C"], "node": o["node"], "msg": o["msg"], "violated": per_rec[idx]}, detail=detail)
 
+    if m_future is not None:
+        m_future.result()
+        m_pool.shutdown()
+    if not replay and counters["nonode"] == 0:
+        raise core.MachineryFailure("vacuous run: no error without a construct was rendered next to located ones")
     n_loc = len([o for o in obs if o["kind"] in ("node", "stderr")])
     n_tab = len([o for o in obs if o["kind"] == "table"])
     ck.cov["evaluations"] = len(obs)
@@ -152,12 +180,12 @@ def main() -> int:
     ck.cov["distinct_nontrivial"] = min(len(obs), counters["later"] + counters["table"])
     ck.cov["exhaustive"] = True
     ck.cov["rule"] = (
-        "G: TLC enumerates %d layouts (12 planted offending constructs x position in the file incl. line 1 x text before it "
-        "(blank lines, comments with tabs and non-ASCII, multi-line docstring) x gap x LF/CRLF x tab indentation); quick runs a seeded sample. "
+        "G: TLC enumerates %d layouts (13 planted offending constructs x position in the file incl. line 1 x text before it "
+        "(blank lines, comments with tabs and non-ASCII, multi-line docstring, form feed, VT/FS/GS/RS, NEL/U+2028/U+2029, blank-with-spaces or indented-comment first line) x gap x LF/CRLF x tab indentation x which mandatory assignments are missing); quick runs a seeded sample. "
         "+ the %d negative fixtures of dev/test_data (parse, intermediate, smoke) with line-shifting prefixes, through main.execute and the smoke tool. "
-        "%d runs, %d located errors seen at LinenoColumner.error_message, %d 'At line' prefixes in stderr; + the real table for all %d texts of <= %s characters over {x, newline}. "
-        "non-trivial = a located report on a line after the first (%d; on line 1: %d) or a table with a character after a newline (%d)"
-        % (n_cases, len({f["path"] for f in job["fixtures"]}), stats["runs"], stats["located_wrapper"], stats["located_stream"], n_tab, job.get("table_max"), counters["later"], counters["first"], counters["table"])
+        "%d runs, %d located errors seen at LinenoColumner.error_message, %d 'At line' prefixes in stderr; + the real columner (a located error per AST node, and its table) for the %d parsable texts of <= %s characters over {x, newline, form feed, blank}. "
+        "non-trivial = a located report on a line after the first (%d; on line 1: %d) or a table with a character after a newline (%d); errors without a construct rendered inside reports: %d"
+        % (n_cases, len({f["path"] for f in job["fixtures"]}), stats["runs"], stats["located_wrapper"], stats["located_stream"], n_tab, job.get("table_max"), counters["later"], counters["first"], counters["table"], counters["nonode"])
     )
     sample = [o for o in obs if o["kind"] == "node"]
     ck.cov["samples"] = [{"src": o["src"], "case": o["case"], "node": o["node"], "reported": [o["L"], o["C"]], "msg": o["msg"][:100]} for o in (sample[:1] + sample[len(sample) // 2 : len(sample) // 2 + 1] + sample[-1:])]
